@@ -78,6 +78,12 @@ Theorem prepare_lays_out_container :
 Proof. exact prepare_spec. Qed.
 Print Assumptions prepare_lays_out_container.
 
+(** the executable well-formedness test that the correspondence evaluates on every generated
+    new build implies the hypothesis [wf_build] of [diff_apply_fresh] *)
+Theorem wf_build_test_sound : forall b, wf_buildb b = true -> wf_build b.
+Proof. exact wf_buildb_sound. Qed.
+Print Assumptions wf_build_test_sound.
+
 (** non-vacuity: the hypotheses are satisfiable (a differ that sends every file as one DATA op
     is [diff_ok]), and a concrete run with a renamed file (full-file op => Transpose), a file
     made of an old block plus fresh bytes, an empty file, a directory and a symlink *)
